@@ -43,6 +43,7 @@ type zOut struct {
 	Owner []int64 // session id per client at the end
 	Notes []string
 	Notes2 []string
+	Notes3 []string // ephemeral writes whose key does not belong to the writing session
 	Skipped map[int]bool // ops whose request was lost and NOT re-sent (the client had already noticed the disconnect): no effect
 	Fired map[int]bool // op index -> the connection of the op's client was really cut during the op
 	AdvAfter map[int]int // op index -> milliseconds the harness itself spent inside a composite op (the machine's clock is advanced by them)
@@ -214,6 +215,13 @@ func zRun(t *testing.T, in zIn) zOut {
 				res = zErrGal(z.SetEphemeral(o.P, o.V))
 			} else {
 				res = zErrGal(z.Set(o.P, o.V))
+			}
+			if _, existed := dump[full]; o.Eph && res == "ZOk" && !existed {
+				// a key that an ephemeral write CREATES belongs to the writing session: it must go away with it
+				// (overwriting an existing ephemeral key keeps its owner)
+				if n, ok := srv.Dump()[full]; ok && n.EphemeralOwner != z.conn.SessionID() {
+					out.Notes3 = append(out.Notes3, fmt.Sprintf("op %d: SetEphemeral %q succeeded but the key is owned by %x, not by the writing session %x (0 = persistent)", len(out.Res), o.P, n.EphemeralOwner, z.conn.SessionID()))
+				}
 			}
 			if mustWork && res != "ZOk" {
 				out.Notes2 = append(out.Notes2, fmt.Sprintf("op %d: set %q failed (%s) although every ancestor is missing or a plain key", len(out.Res), o.P, res))
@@ -608,6 +616,9 @@ func zMonitor(m *vk.Meta, in zIn, out zOut) {
 	}
 	for _, n := range out.Notes2 {
 		m.Violation("set creates missing parents and overwrites", in, n)
+	}
+	for _, n := range out.Notes3 {
+		m.Violation("ephemeral keys exist only while the session that created them lives", in, n)
 	}
 	// ephemeral keys exist only while the creating session lives
 	live := map[int64]bool{}
